@@ -172,10 +172,14 @@ def _evaluate_require(ast, file_path, package_lua, lua_path=None):
                 if game_loop_stats:
                     # Remove the functions' tokens and parse what is left.
                     # (Writing the modified AST over the original token
-                    # stream only works if the functions come last.)
+                    # stream only works if the functions come last.) An
+                    # empty statement takes each function's place, so that a
+                    # following statement that begins with a parenthesis
+                    # does not become a call of what precedes the function.
                     kept_tokens = list(reqd_lua.tokens)
                     for s in reversed(game_loop_stats):
                         kept_tokens[s.start_pos:s.end_pos] = [
+                            lexer.TokSymbol(b';'),
                             lexer.TokNewline(b'\n')]
                     reqd_lua = lua.Lua.from_lines(
                         [b''.join(t.code for t in kept_tokens)],
